@@ -69,4 +69,20 @@ def Out.same : Out → Out → Prop
   | .keyError, .keyError => True
   | _, _ => False
 
+
+/-! ### key union at the end of `TensorDictSequential.forward` / `ProbabilisticTensorDictSequential.forward`
+(`_select_before_return`): which entries of the input are refreshed from the execution copy
+
+  `seqKeysEager`    mirrors tensordict/nn/sequence.py:TensorDictSequential.forward
+                    `keys = list(set(self.out_keys + list(tensordict.keys(True, True))))`
+  `seqKeysCompile`  mirrors the `is_compiling()` branch
+                    `[k for k in {k for k in self.out_keys}.union({k for k in tensordict.keys(True, True)})]`
+  (the same two lines are in tensordict/nn/probabilistic.py) -/
+
+/-- `a.union(b)` on Python sets -/
+def pyUnion (a b : List String) : List String := a ++ b.filter (fun x => !a.contains x)
+
+def seqKeysEager (outKeys tdKeys : List String) : List String := pySet (outKeys ++ tdKeys)
+def seqKeysCompile (outKeys tdKeys : List String) : List String := pyUnion (pySetComp outKeys) (pySetComp tdKeys)
+
 end TdVerif.CheckKeys
